@@ -81,6 +81,9 @@ def judge(T: dict, case: dict, fns_by_k: dict, reps: int, out: dict) -> None:
                 if canon(d) != canon(want):
                     add("C02", "wrong_outer_form", f"{dt.name}: dumped {d!r}; documented outer form {want!r}")
                     continue
+                # ---- C20 (dump side): a container adaptix builds is a new object ------------------
+                if isinstance(d, (list, dict, tuple)) and d is x and T["k"] not in ("Any", "union", "literal") and not (isinstance(d, tuple) and not d):
+                    add("C20", "dump_returns_its_argument", f"{dt.name}: dump returned the argument object itself ({d!r})")
                 if case["sub"] or not rt:
                     continue
                 # ---- C01: load the dump back ---------------------------------------------------
@@ -129,7 +132,7 @@ def _str_keys(d: Any) -> bool:
 
 def _worker(items) -> dict:
     from adaptix import Retort
-    out: dict = {"runs": 0, "cases": 0, "json_travels": 0, "C01": [], "C02": [], "C06": [], "creation_failed": [], "machinery": [],
+    out: dict = {"runs": 0, "cases": 0, "json_travels": 0, "C01": [], "C02": [], "C06": [], "C20": [], "creation_failed": [], "machinery": [],
                  "samples": []}
     for path, tjson, spans, reps, variant in items:
         T = json.loads(tjson)
@@ -159,7 +162,7 @@ def _worker(items) -> dict:
                     out["machinery"].append(str(e))
                 except Exception:  # noqa: BLE001
                     out["machinery"].append(f"harness error on {type_str(T)} <- {data_str(case['v'])}: {traceback.format_exc()[-800:]}")
-        for cat in ("C01", "C02", "C06"):
+        for cat in ("C01", "C02", "C06", "C20"):
             out[cat] = _min_per_sig(out[cat])
     return out
 
@@ -189,17 +192,17 @@ def run_dump_sweep(ctx: Ctx, profile_name: Optional[str] = None) -> dict:
     for tk, spans in groups.items():
         for i in range(0, len(spans), 300):
             items.append((str(res.out_path), tjsons[tk], spans[i:i + 300], reps, variant))
-    total: dict = {"runs": 0, "cases": 0, "json_travels": 0, "C01": [], "C02": [], "C06": [], "creation_failed": [], "machinery": []}
+    total: dict = {"runs": 0, "cases": 0, "json_travels": 0, "C01": [], "C02": [], "C06": [], "C20": [], "creation_failed": [], "machinery": []}
     for o in pmap(_worker, items, chunk=1):
         for key in ("runs", "cases", "json_travels"):
             total[key] += o[key]
-        for cat in ("C01", "C02", "C06", "creation_failed", "machinery"):
+        for cat in ("C01", "C02", "C06", "C20", "creation_failed", "machinery"):
             total[cat] += o[cat]
         if len(ctx.samples) < 5:
             ctx.samples += o["samples"]
     if total["machinery"]:
         raise MachineryError(f"{len(total['machinery'])} harness failures, first: {total['machinery'][0]}")
-    for cat in ("C01", "C02", "C06"):
+    for cat in ("C01", "C02", "C06", "C20"):
         total[cat] = _min_per_sig(total[cat])
     ctx.replayed += total["runs"]
     ctx.evaluations += total["runs"] * 6
